@@ -350,6 +350,14 @@ def witness_rows():
                 rows.append((f'{o}2{d}', o, d, sample, places, 'guards'))
             for places in (0, 1, 10, 11):
                 rows.append((f'{o}2{d}', o, d, neg, places, 'guards'))
+            # the widest non-negative results (nine binary, ten octal / hexadecimal digits) with places below, at and above their length
+            top = (1 << (min(widths) - 1)) - 1
+            for v in (top, top >> 3, top >> 6):
+                vnum = v if o == 'DEC' else _digits(v, o)
+                wide = len(_digits(v, d))
+                for places in (1, wide - 1, wide, 10):
+                    if places >= 1:
+                        rows.append((f'{o}2{d}', o, d, vnum, places, 'guards'))
         if o != 'DEC':
             radix = _REF_BASES[o][0]
             for bad in ('0123456789ABCDEFG'[radix] + '1', '1.0', '+1', ' 1', '1_0', '-1', 'false', 'FALSE', '1' * 11, ''):
